@@ -19,6 +19,11 @@ A *case* is a history over two registry instances and up to three threads:
     ("fdrop", t, h)         the handle is dropped and the OUTERMOST layer's on_close panics for that span (contained): every
                             other layer was notified, the unwinding drops the closing outermost CloseGuard, which clears the
                             slot and releases the parent                                      (model: drop)
+    ("pexit", t, q) ("pdropguard", t, g)   Collect::exit / the EnteredSpan guard's drop run from a destructor while a (contained)
+                            panic unwinds                                                      (model: exit / dropguard)
+    ("mdrop", tA, tB, h)    thread tA parks inside reload::Handle::modify of the reload-wrapped second recording layer of h's
+                            instance (write lock held); thread tB drops h (if that closes a span, tB blocks in the reload
+                            layer's on_close); tA leaves                                        (model: drop by tB)
     ("hold", t, k, h) ("poke", t, k) ("release", t, k)
     ("peek", t, k)          keep a SpanRef (slab guard) obtained by `registry.span(&id)` across other operations, write an
                             extension (Note) through it, read it back, drop it ("guards" mode).  Model: OHold_ / OPoke /
@@ -235,7 +240,11 @@ class Gen:
         # (not in chaos mode: after a mis-routed release try_close may find no span, and then it panics only when the
         #  thread is not already panicking — the one place where a drop during unwinding differs from a plain drop)
         x = self.r.random()
-        self.emit(("pdrop" if x < 0.12 else "fdrop") if self.mode != "chaos" and x < 0.2 else "drop", t, h)
+        if self.mode != "chaos" and self.nt >= 2 and 0.2 <= x < 0.235:
+            ta = self.r.choice([u for u in range(self.nt) if u != t])
+            self.emit("mdrop", ta, t, h)
+        else:
+            self.emit(("pdrop" if x < 0.12 else "fdrop") if self.mode != "chaos" and x < 0.2 else "drop", t, h)
         del self.handles[h]
 
     def op_enter(self):
@@ -270,7 +279,7 @@ class Gen:
         if q < 0 or (hs and r.random() < 0.5):
             self.emit("exith", t, r.choice(hs))
         else:
-            self.emit("exit", t, q)
+            self.emit("pexit" if self.mode != "chaos" and r.random() < 0.25 else "exit", t, q)
 
     def op_entered(self):
         c = self.live("S")
@@ -291,7 +300,7 @@ class Gen:
         t, q, inst = self.guards[g]
         if self.mode != "chaos" and self.eff(t) != inst:
             return
-        self.emit("dropguard", t, g)
+        self.emit("pdropguard" if self.mode != "chaos" and self.r.random() < 0.2 else "dropguard", t, g)
         del self.guards[g]
 
     def op_cur(self):
@@ -640,14 +649,16 @@ def model_ops(case, impl):
             groups.append(["ODrop %d %d" % (op[1], 2 * op[2])])      # panicking: the same registry calls
         elif name == "enter":
             groups.append(["OEnter %d %d" % (op[1], 2 * op[2])])
-        elif name == "exit":
+        elif name in ("exit", "pexit"):
             groups.append(["OExit %d %d" % op[1:]])
+        elif name == "mdrop":
+            groups.append(["ODrop %d %d" % (op[2], 2 * op[3])])
         elif name == "exith":
             groups.append(["OExitH %d %d" % (op[1], 2 * op[2])])
         elif name == "entered":
             _, t, h, g = op
             groups.append(["OClone %d %d %d" % (t, 2 * h, 2 * (GUARD_H + g)), "OEnter %d %d" % (t, 2 * (GUARD_H + g))])
-        elif name == "dropguard":
+        elif name in ("dropguard", "pdropguard"):
             _, t, g = op
             groups.append(["OExitH %d %d" % (t, 2 * (GUARD_H + g)), "ODrop %d %d" % (t, 2 * (GUARD_H + g))])
         elif name == "cur":
@@ -972,8 +983,10 @@ class Oracle:
                     s.deferred = False
                     # Clear for DataInner runs here, on this thread, outside any get_default closure
                     self.release_parent(k, q, t, False, expect)
-        elif name in ("drop", "pdrop", "fdrop"):
+        elif name in ("drop", "pdrop", "fdrop", "mdrop"):
             h = op[2]
+            if name == "mdrop":
+                t, h = op[2], op[3]
             if h in self.handles:
                 q = self.handles.pop(h)
                 if q is not None:
@@ -986,8 +999,8 @@ class Oracle:
             h = op[2]
             if self.handles.get(h) is not None and self.hkind[h] == "S":
                 self.enter(self.handles[h], t)
-        elif name in ("exit", "exith"):
-            if name == "exit":
+        elif name in ("exit", "exith", "pexit"):
+            if name in ("exit", "pexit"):
                 q = op[2] if op[2] in self.spans else None
             else:
                 q = self.handles.get(op[2]) if self.hkind.get(op[2]) == "S" else None
@@ -1003,7 +1016,7 @@ class Oracle:
                 self.enter(q, t)
             elif h in self.handles and self.hkind[h] == "S" and g not in self.guards:
                 self.guards[g] = (t, None)
-        elif name == "dropguard":
+        elif name in ("dropguard", "pdropguard"):
             g = op[2]
             if g in self.guards:
                 _, q = self.guards.pop(g)
@@ -1394,7 +1407,7 @@ def run_common(ctx, prop, rep, proof_targets):
         rep.tie("build:h_registry", False, vlib.last_error(log))
         return rep
     binpath = paths["h_registry"]
-    n = 640 if not ctx.thorough() else 5000
+    n = 600 if not ctx.thorough() else 5000
     cases = load_corpus(prop) + gen_cases(ctx, n)
     rep.count("cases:corpus", sum(1 for c in cases if c["mode"] == "corpus"))
     impl, errs = run_impl(ctx, binpath, cases)
